@@ -12,6 +12,7 @@ import sys
 from harness.coqfmt import B, X
 
 ID = 'C15'
+COVERAGE_NOTE = 'the implementation runs in one worker subprocess per (TZ, locale) configuration; those are not measured, so the numbers below only reflect what the harness process itself imported and ran'
 PROPS = 'Props/C15.v'
 TABLES = ['DateT']
 COQ_HEADER = 'From Httoop Require Import Lib.Bytes Lib.Variant Model.DateCal Gen.DateT Model.Date Corr.C15.'
